@@ -78,4 +78,80 @@ theorem src_naive_datetime_mod_rs_fn_signed_duration_since : C03_src_naive_datet
 theorem src_naive_time_mod_rs_fn_overflowing_add_signed : C03_src_naive_time_mod_rs_fn_overflowing_add_signed =
     ["&", "self", "v1", "TimeDelta", "->", "NaiveTime", "i64", "v2", "self", "v2", "as", "i64", "v3", "self", "v3", "as", "i32", "v4", "v1", "num_seconds(", "v5", "v1", "subsec_nanos(", "if", "v3", ">=", "1000000000", "if", "v4", ">", "0", "||", "v5", ">", "0", "&&", "v3", ">=", "2000000000", "-", "v5", "v3", "-=", "1000000000", "else", "if", "v4", "<", "0", "v3", "-=", "1000000000", "v2", "+=", "1", "else", "return(", "NaiveTime", "v2", "self", "v2", "v3", "v3", "+", "v5", "as", "u32", "0", "v2", "v2", "+", "v4", "v3", "+=", "v5", "if", "v3", "<", "0", "v3", "+=", "1000000000", "v2", "-=", "1", "else", "if", "v3", ">=", "1000000000", "v3", "-=", "1000000000", "v2", "+=", "1", "v6", "v2", "rem_euclid(", "86400", "v7", "v2", "-", "v6", "NaiveTime", "v2", "v6", "as", "u32", "v3", "v3", "as", "u32", "v7"] := by decide +kernel
 
+/-- callee src/datetime/mod.rs:fn from_naive_utc_and_offset -/
+theorem callee_src_datetime_mod_rs_fn_from_naive_utc_and_offset : C03_callee_src_datetime_mod_rs_fn_from_naive_utc_and_offset =
+    ["v1", "NaiveDateTime", "v2", "Tz", "Offset", "->", "DateTime", "<", "Tz", ">", "DateTime", "v1", "v2"] := by decide +kernel
+
+/-- callee src/naive/date/mod.rs:fn cycle_to_yo -/
+theorem callee_src_naive_date_mod_rs_fn_cycle_to_yo : C03_callee_src_naive_date_mod_rs_fn_cycle_to_yo =
+    ["v1", "u32", "->", "u32", "u32", "v2", "v1", "/", "365", "v3", "v1", "%", "365", "v4", "YEAR_DELTAS", "v2", "as", "usize", "as", "u32", "if", "v3", "<", "v4", "v2", "-=", "1", "v3", "+=", "365", "-", "YEAR_DELTAS", "v2", "as", "usize", "as", "u32", "else", "v3", "-=", "v4", "v2", "v3", "+", "1"] := by decide +kernel
+
+/-- callee src/naive/date/mod.rs:fn div_mod_floor -/
+theorem callee_src_naive_date_mod_rs_fn_div_mod_floor : C03_callee_src_naive_date_mod_rs_fn_div_mod_floor =
+    ["v1", "i32", "v2", "i32", "->", "i32", "i32", "v1", "div_euclid(", "v2", "v1", "rem_euclid(", "v2"] := by decide +kernel
+
+/-- callee src/naive/date/mod.rs:fn from_ordinal_and_flags -/
+theorem callee_src_naive_date_mod_rs_fn_from_ordinal_and_flags : C03_callee_src_naive_date_mod_rs_fn_from_ordinal_and_flags =
+    ["v1", "i32", "v2", "u32", "v3", "YearFlags", "->", "Option", "<", "NaiveDate", ">", "if", "v1", "<", "MIN_YEAR", "||", "v1", ">", "MAX_YEAR", "return", "None", "if", "v2", "==", "0", "||", "v2", ">", "366", "return", "None", "debug_assert!(", "YearFlags", "from_year(", "v1", "==", "v3", "v4", "v1", "<<", "13", "|", "v2", "<<", "4", "as", "i32", "|", "v3", "as", "i32", "match", "v4", "&", "OL_MASK", "<=", "MAX_OL", "true", "=>", "Some(", "NaiveDate", "from_yof(", "v4", "false", "=>", "None"] := by decide +kernel
+
+/-- callee src/naive/date/mod.rs:fn leap_year -/
+theorem callee_src_naive_date_mod_rs_fn_leap_year : C03_callee_src_naive_date_mod_rs_fn_leap_year =
+    ["&", "self", "->", "bool", "self", "yof(", "&", "8", "==", "0"] := by decide +kernel
+
+/-- callee src/naive/date/mod.rs:fn yo_to_cycle -/
+theorem callee_src_naive_date_mod_rs_fn_yo_to_cycle : C03_callee_src_naive_date_mod_rs_fn_yo_to_cycle =
+    ["v1", "u32", "v2", "u32", "->", "u32", "v1", "*", "365", "+", "YEAR_DELTAS", "v1", "as", "usize", "as", "u32", "+", "v2", "-", "1"] := by decide +kernel
+
+/-- callee src/naive/date/mod.rs:fn yof -/
+theorem callee_src_naive_date_mod_rs_fn_yof : C03_callee_src_naive_date_mod_rs_fn_yof =
+    ["&", "self", "->", "i32", "self", "v1", "get("] := by decide +kernel
+
+/-- callee src/naive/datetime/mod.rs:fn checked_add_offset -/
+theorem callee_src_naive_datetime_mod_rs_fn_checked_add_offset : C03_callee_src_naive_datetime_mod_rs_fn_checked_add_offset =
+    ["self", "v1", "FixedOffset", "->", "Option", "<", "NaiveDateTime", ">", "let(", "v2", "v3", "self", "v2", "overflowing_add_offset(", "v1", "v4", "match", "v3", "-", "1", "=>", "try_opt!(", "self", "v4", "pred_opt(", "1", "=>", "try_opt!(", "self", "v4", "succ_opt(", "v5", "=>", "self", "v4", "Some(", "NaiveDateTime", "v4", "v2"] := by decide +kernel
+
+/-- callee src/naive/datetime/mod.rs:fn checked_sub_offset -/
+theorem callee_src_naive_datetime_mod_rs_fn_checked_sub_offset : C03_callee_src_naive_datetime_mod_rs_fn_checked_sub_offset =
+    ["self", "v1", "FixedOffset", "->", "Option", "<", "NaiveDateTime", ">", "let(", "v2", "v3", "self", "v2", "overflowing_sub_offset(", "v1", "v4", "match", "v3", "-", "1", "=>", "try_opt!(", "self", "v4", "pred_opt(", "1", "=>", "try_opt!(", "self", "v4", "succ_opt(", "v5", "=>", "self", "v4", "Some(", "NaiveDateTime", "v4", "v2"] := by decide +kernel
+
+/-- callee src/naive/internals.rs:fn from_year -/
+theorem callee_src_naive_internals_rs_fn_from_year : C03_callee_src_naive_internals_rs_fn_from_year =
+    ["v1", "i32", "->", "YearFlags", "v1", "v1", "rem_euclid(", "400", "YearFlags", "from_year_mod_400(", "v1"] := by decide +kernel
+
+/-- callee src/naive/internals.rs:fn from_year_mod_400 -/
+theorem callee_src_naive_internals_rs_fn_from_year_mod_400 : C03_callee_src_naive_internals_rs_fn_from_year_mod_400 =
+    ["v1", "i32", "->", "YearFlags", "YEAR_TO_FLAGS", "v1", "as", "usize"] := by decide +kernel
+
+/-- callee src/naive/time/mod.rs:fn overflowing_sub_signed -/
+theorem callee_src_naive_time_mod_rs_fn_overflowing_sub_signed : C03_callee_src_naive_time_mod_rs_fn_overflowing_sub_signed =
+    ["&", "self", "v1", "TimeDelta", "->", "NaiveTime", "i64", "let(", "v2", "v1", "self", "overflowing_add_signed(", "v1", "neg(", "v2", "-", "v1"] := by decide +kernel
+
+/-- callee src/offset/mod.rs:fn from_utc_datetime -/
+theorem callee_src_offset_mod_rs_fn_from_utc_datetime : C03_callee_src_offset_mod_rs_fn_from_utc_datetime =
+    ["&", "self", "v1", "&", "NaiveDateTime", "->", "DateTime", "<", "Self", ">", "DateTime", "from_naive_utc_and_offset(", "*", "v1", "self", "offset_from_utc_datetime(", "v1"] := by decide +kernel
+
+/-- callee src/time_delta.rs:fn from_std -/
+theorem callee_src_time_delta_rs_fn_from_std : C03_callee_src_time_delta_rs_fn_from_std =
+    ["v1", "Duration", "->", "Result", "<", "TimeDelta", "OutOfRangeError", ">", "if", "v1", "as_secs(", ">", "MAX", "v2", "as", "u64", "return", "Err(", "OutOfRangeError(", "match", "TimeDelta", "new(", "v1", "as_secs(", "as", "i64", "v1", "subsec_nanos(", "Some(", "v3", "=>", "Ok(", "v3", "None", "=>", "Err(", "OutOfRangeError("] := by decide +kernel
+
+/-- callee src/time_delta.rs:fn num_seconds -/
+theorem callee_src_time_delta_rs_fn_num_seconds : C03_callee_src_time_delta_rs_fn_num_seconds =
+    ["&", "self", "->", "i64", "if", "self", "v1", "<", "0", "&&", "self", "v2", ">", "0", "self", "v1", "+", "1", "else", "self", "v1"] := by decide +kernel
+
+/-- callee src/time_delta.rs:fn num_weeks -/
+theorem callee_src_time_delta_rs_fn_num_weeks : C03_callee_src_time_delta_rs_fn_num_weeks =
+    ["&", "self", "->", "i64", "self", "num_days(", "/", "7"] := by decide +kernel
+
+/-- callee src/time_delta.rs:fn subsec_nanos -/
+theorem callee_src_time_delta_rs_fn_subsec_nanos : C03_callee_src_time_delta_rs_fn_subsec_nanos =
+    ["&", "self", "->", "i32", "if", "self", "v1", "<", "0", "&&", "self", "v2", ">", "0", "self", "v2", "-", "NANOS_PER_SEC", "else", "self", "v2"] := by decide +kernel
+
+/-- callee src/time_delta.rs:fn try_days -/
+theorem callee_src_time_delta_rs_fn_try_days : C03_callee_src_time_delta_rs_fn_try_days =
+    ["v1", "i64", "->", "Option", "<", "TimeDelta", ">", "TimeDelta", "try_seconds(", "try_opt!(", "v1", "checked_mul(", "SECS_PER_DAY"] := by decide +kernel
+
+/-- callee src/time_delta.rs:fn try_seconds -/
+theorem callee_src_time_delta_rs_fn_try_seconds : C03_callee_src_time_delta_rs_fn_try_seconds =
+    ["v1", "i64", "->", "Option", "<", "TimeDelta", ">", "TimeDelta", "new(", "v1", "0"] := by decide +kernel
+
 end Chrono.Pins.C03
